@@ -25,6 +25,8 @@ WPAT = {
     'squares': lambda n: [[F(1), F(4), F(1, 4), F(9)][i % 4] for i in range(n)],
     'zero1': lambda n: [F(0) if i == 1 else F(1) for i in range(n)],
     'neg_zero': lambda n: [F(-1) if i == 0 else (F(0) if i == n - 1 else F(4)) for i in range(n)],
+    # fewer good points than the order of the spline: no fit is possible, the mask must still flag the bad points
+    'few_good': lambda n: [F(1) if i in (1, 2) else (F(0) if i % 2 else F(-1)) for i in range(n)],
 }
 
 
@@ -140,6 +142,7 @@ def obligations(tier, seed):
             obs.append(ob_iterfit(n, 2, 'squares', 5, 5, 0, allp if n <= 4 else gens))
         obs.append(ob_iterfit(n, 3, 'zero1', 5, 5, 0, gens))
         obs.append(ob_iterfit(n, 2, 'neg_zero', 2, 2, 0, gens))
+    obs.append(ob_iterfit(4, 3, 'few_good', 5, 5, 0, _generators(4)))
     # with rejection
     obs.append(ob_iterfit(4, 2, 'ones', 1, 1, 1, _generators(4)))
     obs.append(ob_iterfit(4, 2, 'squares', 2, 1, 2, _generators(4)))
